@@ -273,7 +273,7 @@ def short_histories(env):
 
 FAMILIES = [
     ["Conv", "ConvSub", "ConvHolder", "AnyT"], ["ConvDC"], ["PreConv", "PreConvHolder"], ["Obj", "ObjHolder", "ObjDC", "PreObj"], ["Rec", "RecHolder"],
-    ["Named", "NamedHolder"], ["PetU", "Cat"], ["LitU", "LitA"], ["Sch", "SchStr", "SchDC", "SchHolder"], ["Aliased", "AliasedHolder"], ["Ordered", "OrderedHolder"],
+    ["Named", "NamedHolder", "XRef"], ["PetU", "Cat"], ["LitU", "LitA"], ["Sch", "SchStr", "SchDC", "SchHolder"], ["Aliased", "AliasedHolder"], ["Ordered", "OrderedHolder"],
     ["Validated", "ValidatedHolder"], ["DepReq", "DepReqHolder"], ["Base", "UnionSub", "BaseHolder", "SubA"], ["Meth", "MethHolder"],
     ["Cons", "ConsInt"], ["Defaulted", "FS"], ["Raw", "RawHolder"], ["Dof", "DofHolder"], ["U_AB", "U_BA"], ["Int", "ListInt", "OptInt", "DictAny"],
 ]
